@@ -76,6 +76,32 @@ void go(Rng& rng)
     }
 }
 
+#if defined(SEC_C03I)
+// comparisons between a built-in integer and a scaled_integer, integer on either side
+template<class R1, int E1, class B, int RX>
+void goi(Rng& rng)
+{
+    using A = scaled_integer<R1, power<E1, RX>>;
+    auto lv = vals<R1>(rng, 4 * scale_from_env(), sizeof(R1) > 4 ? 11 : 5);
+    auto rv = vals<B>(rng, 4 * scale_from_env(), sizeof(B) > 4 ? 11 : 5);
+    for (R1 a : lv)
+        for (B b : rv) {
+            A x = _impl::from_rep<A>(a);
+#define IC(SIDE, NAME, EXPR) \
+    { \
+        printf("C03 icmp " SIDE " " NAME " %d %s %d %s ", RX, tn<R1>().c_str(), E1, tn<B>().c_str()); \
+        prv(a); \
+        putchar(' '); \
+        prv(b); \
+        fputs(" => ", stdout); \
+        VH_RUN(EXPR, print_tv) \
+    }
+            IC("r", "lt", x < b) IC("r", "le", x <= b) IC("r", "gt", x > b) IC("r", "ge", x >= b) IC("r", "eq", x == b) IC("r", "ne", x != b)
+            IC("l", "lt", b < x) IC("l", "le", b <= x) IC("l", "gt", b > x) IC("l", "ge", b >= x) IC("l", "eq", b == x) IC("l", "ne", b != x)
+        }
+}
+#endif
+
 #if defined(SEC_C04F)
 #include "vhf.h"
 // scaled_integer <-> floating point
@@ -88,6 +114,21 @@ void gof(Rng& rng)
         lv = all_vals<R1>();
     else
         lv = vals<R1>(rng, 200 * scale_from_env(), 1);
+    if constexpr (sizeof(R1) >= 4) {
+        // values next to the rounding midpoints of every floating format: 2^a + 2^b + c
+        constexpr int D = std::numeric_limits<R1>::digits;
+        for (int a = D - 1; a >= D - 3 && a > 0; --a)
+            for (int p : {24, 25, 53, 54, 64, 65})
+                for (int c = -1; c <= 1; ++c) {
+                    int b = a - p + 1;
+                    if (b < 1) continue;
+                    R1 v = R1((R1(1) << a) + (R1(1) << (b - 1)) + R1(c));
+                    push_unique(lv, v);
+                    if constexpr (std::is_signed_v<R1>) push_unique(lv, R1(-v));
+                    R1 w = R1((R1(1) << a) + (R1(3) << (b - 1)) + R1(c));
+                    push_unique(lv, w);
+                }
+    }
     for (R1 a : lv) {
         A x = _impl::from_rep<A>(a);
         printf("C04 tof %d %s %d %s ", RX, tn<R1>().c_str(), E1, vhf::FN<F>::name);
